@@ -78,8 +78,8 @@ struct Runner {
             ret = (long long)box->stamp();
             if (twin) tret = (long long)twin->stamp();
         } else if (c.op == "more_props") {
-            box->add_more_props(std::to_string(++box->propcount));
-            if (twin) twin->add_more_props(std::to_string(++twin->propcount));
+            { size_t n0 = box->props.size(); box->add_more_props(std::to_string(++box->propcount)); box->refill(n0); }
+            if (twin) { size_t n0 = twin->props.size(); twin->add_more_props(std::to_string(++twin->propcount)); twin->refill(n0); }
         } else {
             last_list().clear();
             ret = do_kernel_call(*box->m, c, &known);
